@@ -1,6 +1,11 @@
 package props
 
-import "verif/internal/vc"
+import (
+	"sort"
+	"strings"
+
+	"verif/internal/vc"
+)
 
 func init() {
 	var regs []vc.Registration
@@ -16,7 +21,7 @@ func init() {
 			"deferred calls run at every return (modelled), sync.Cond.Wait re-acquires the mutex before it returns",
 		},
 		NotCovered: []string{
-			"accesses through a *Session or a map obtained under the lock and used after it was released by the caller (api package: handlers read fields of the *Session returned by GetSession), api.HTTP.mu and the pointers swapped by ReplaceState, raftstore.LevelDBStore (its mutex guards only the db pointer), FSM fields, the Prometheus collectors; goroutine creation and channel operations; atomics",
+			"accesses through a *Session or a map obtained under the lock and used after it was released by the caller (api package: handlers read fields of the *Session returned by GetSession: no IRCServer is a parameter there, so the guard cannot name the lock), closures started as goroutines inside api handlers, raftstore.LevelDBStore (its mutex guards only the db pointer), FSM fields, the Prometheus collectors; goroutine creation and channel operations; atomics",
 			"this is lock discipline proved per function, not an exploration of schedules: a race through a location that has no guard directive is not seen",
 		},
 	}
@@ -39,6 +44,17 @@ func init() {
 		}
 		for _, m := range []string{"Add", "Delete", "Get", "GetNext", "LastSeen", "getUnlocked", "InterruptGetNext"} {
 			p.Units = append(p.Units, UnitPlan{"outputstream.OutputStream." + m, lk})
+		}
+		// every method of api.HTTP: the pointers swapped by Restore are only touched under HTTP.mu
+		var apis []string
+		for name := range e.Funcs {
+			if strings.HasPrefix(name, "api.HTTP.") && !strings.Contains(name, "$") {
+				apis = append(apis, name)
+			}
+		}
+		sort.Strings(apis)
+		for _, n := range apis {
+			p.Units = append(p.Units, UnitPlan{n, vc.UnitOpts{Post: true, LocksOnly: true, NoCover: true}})
 		}
 		return nil
 	}
